@@ -714,6 +714,10 @@ class ExecMixin:
                 yield from self.diff(st, v0.elems[i], vb.elems[i], kp + (("e", i),))
             return
         if isinstance(v0, VIter):
+            if isinstance(v0.pos, Lin) and isinstance(vb.pos, Lin) and v0.kind == vb.kind:
+                if not self.same_lin(st, v0.pos, vb.pos):
+                    yield (kp + (("ipos",),), "int")
+                return
             if v0.kind != vb.kind or v0.items != vb.items or v0.pos != vb.pos or v0.src != vb.src:
                 yield (kp, "any")
             return
